@@ -208,6 +208,35 @@ theorem C08_body_without_return_raises (f : PyFn) (h : ∀ e rest, f.body ≠ .r
         | none => exact exists_err (by simp [handleBodyFirst, renameStmt, convertStmt, bind, Except.bind, isErr])
         | some e => exact absurd hb (h e ss)
 
+/-- Function level of `C08_unsupported_raises`: a body that does not begin with `return <expression>`, or
+    whose returned expression contains a construct without MathML counterpart, makes the export raise
+    (`IdentifierReplacer` renames identifiers only, so the renamed expression is unsupported as well). -/
+theorem C08_fn_unsupported_raises (f : PyFn) (h : bodyUnsupported f.body = true)
+    (hfree : calleeFreeBody f.params f.body = true) :
+    ∃ err, sbmlifyFn f = .error err := by
+  cases hb : f.body with
+  | nil => exact C08_body_without_return_raises f (by intro e rest; rw [hb]; exact fun h => by cases h)
+  | cons s ss =>
+    cases s with
+    | other => exact C08_body_without_return_raises f (by intro e rest; rw [hb]; exact fun h => by cases h)
+    | ret oe =>
+      cases oe with
+      | none => exact C08_body_without_return_raises f (by intro e rest; rw [hb]; exact fun h => by cases h)
+      | some e =>
+        rw [hb] at h
+        simp only [bodyUnsupported, stmtUnsupported] at h
+        unfold sbmlifyFn
+        cases hz : zipStrict f.params f.args with
+        | error err => exact ⟨err, by simp [bind, Except.bind]⟩
+        | ok σ =>
+          have hfirst : bodyFirstReturn = true := rfl
+          have hσ := zipStrict_eq hz
+          subst hσ
+          rw [hb] at hfree
+          simp only [calleeFreeBody, List.all_cons, Bool.and_eq_true] at hfree
+          obtain ⟨err, he⟩ := C08_unsupported_raises _ (by rw [hasUnsupported_rename f.params f.args e hfree.1]; exact h)
+          exact ⟨err, by simp [bind, Except.bind, handleBody, hfirst, hb, renameStmt, handleBodyFirst, convertStmt, he]⟩
+
 /-- Identifiers of the form `[A-Za-z][A-Za-z0-9_]*` are written unchanged (whatever the prefix). -/
 theorem C08_escape_plain (s pre : String) (h : isPlainName s = true) : escapeId s pre = .ok s :=
   escapeId_plain pre h
